@@ -845,7 +845,8 @@ fn trace(a: &Args) -> Result<()> {
                     let mut cat: Vec<(Name, usize)> = vec![];
                     let m = if is_big { big } else { r.gen_range(2..=5) };
                     while cat.len() < m {
-                        let n = rand_name(&mut r, pansn);
+                        // (names of 1..3 letters over a 3-letter alphabet are only 39: the big catalogue uses 4..5 letters)
+                        let n: Name = if is_big { (0..r.gen_range(4..=5)).map(|_| r.gen_range(1..=3u8)).collect() } else { rand_name(&mut r, pansn) };
                         if !cat.iter().any(|(x, _)| *x == n) {
                             cat.push((n, if is_big { 1 } else { r.gen_range(1..=3) }));
                         }
